@@ -2,6 +2,7 @@
 from __future__ import annotations
 
 import ast
+import re
 
 from .. import anchors as A
 from ..consteval import module_const, try_fold
@@ -65,6 +66,12 @@ def check(P: Project, R: Report) -> None:
                 v = try_fold(P, errors, n.value)
                 if isinstance(v, int) and not isinstance(v, bool) and nm not in RANGE_BOUNDS:
                     named[nm] = v
+    # names the errors module re-exports from wherever the constants were moved to
+    for local_name, (tm, tn) in sorted(errors.imports.items()):
+        if tn and (local_name.isupper() or (local_name.replace("_", "").isupper() and local_name.replace("_", "").isalpha())) and local_name not in named and local_name not in RANGE_BOUNDS:
+            v = try_fold(P, errors, ast.Name(id=local_name, ctx=ast.Load()))
+            if isinstance(v, int) and not isinstance(v, bool):
+                named[local_name] = v
     R.need(len(named) >= 10, f"only {len(named)} named integer code constants found in errors.py (14 confirmed by hand)")
     R.extra["named_codes"] = {k: v for k, v in sorted(named.items())}
     both = sorted(non_retry & retry)
@@ -123,6 +130,8 @@ def check(P: Project, R: Report) -> None:
     for f in cand:
         if any(isinstance(c, ast.Call) and call_name(c) == "is_retryable_error" for c in walk_local(f.node)):
             proc = f
+        elif any(isinstance(c, ast.Compare) and len(c.ops) == 1 and isinstance(c.ops[0], (ast.In, ast.NotIn)) and ast.unparse(c.comparators[0]) in ("NON_RETRYABLE_ERRORS", "RETRYABLE_ERRORS") for c in walk_local(f.node)):
+            proc = f  # the classifier's test written out in the processor
     R.need(proc is not None, "anchor: no response processor using is_retryable_error found under the receive loop")
     R.fn(proc.fq, wait_fn.fq)
     an, out = run_paths(proc.node, fallible=False)
@@ -162,6 +171,14 @@ def check(P: Project, R: Report) -> None:
         expanded = [an.origin(l).replace("<", "").replace(">", "") for l in st.lits]
         chooser_pos = [l for l in expanded if l.startswith("is_retryable_error(")]
         chooser_neg = [l for l in expanded if l.startswith("not is_retryable_error(")]
+        # the same test written out: `code not in NON_RETRYABLE_ERRORS` is what is_retryable_error(code) returns (R2)
+        for l in expanded:
+            m_ = re.fullmatch(r"(.+) not in NON_RETRYABLE_ERRORS", l)
+            if m_:
+                chooser_pos.append(f"is_retryable_error({m_.group(1)})")
+            m_ = re.fullmatch(r"(.+) in NON_RETRYABLE_ERRORS", l)
+            if m_ and not l.startswith("not ") and not m_.group(1).endswith(" not"):
+                chooser_neg.append(f"not is_retryable_error({m_.group(1)})")
         if short == "RetryableError":
             ok_choice = bool(chooser_pos) and not chooser_neg
             chosen = chooser_pos
